@@ -42,7 +42,9 @@ class OrderedIdSet:
         return id(o) in self._d
 
     def __iter__(self):
-        return iter(list(self._d.values()))
+        # live iteration, as over the original set: adding / removing during a Python-level iteration raises
+        # RuntimeError (a snapshot here would hide unsynchronised iteration in the code under test)
+        return iter(self._d.values())
 
     def __len__(self):
         return len(self._d)
